@@ -245,6 +245,73 @@ fn run(ctx: &mut Ctx) {
             }
         }
     });
+    // ---- every ordered pair of boundary words (all 256 top bytes x 7 low parts, the scaler tag among them) as a 2-word
+    // stream, and with a third word appended: what a word means must not depend on its neighbours or its position
+    let lows: [u32; 7] = [0, 1, 0x3C, 0x7F_FFFF, 0x80_0000, 0xFF_FFFF, 0x00_003D];
+    ctx.cases("word-pairs", 256, |ctx, top1, rng| {
+        for lo1 in lows {
+            let a = (lo1 | (top1 as u32) << 24).to_le_bytes();
+            for top2 in 0..256u32 {
+                for lo2 in lows {
+                    let b = (lo2 | top2 << 24).to_le_bytes();
+                    let mut st = a.to_vec();
+                    st.extend(b);
+                    if (top2 + lo2) % 5 == 0 {
+                        st.extend(ts_word(rng.below(59) as u8, rng.bool(), rng.next()));
+                    }
+                    let Some((got, consumed)) = lib_parse(ctx, &st) else { return };
+                    let (exp, ec) = ref_parse(&st);
+                    if got != exp || consumed != ec {
+                        ctx.violation("entries or consumed length differ from the reference parser", format!("stream {:02x?}: consumed {} vs {}, entries {} vs {}", st, consumed, ec, got.len(), exp.len()), json!({"bytes": hex(&st)}));
+                        return;
+                    }
+                }
+            }
+        }
+        ctx.count_n("two- and three-word streams of boundary words", 7 * 256 * 7);
+    });
+    // ---- scaler blocks whose 240 content bytes are themselves tags / markers / timestamps / all ones, alone, back to
+    // back, first and last in the stream, followed by every kind of word
+    ctx.cases("block-contents", 64, |ctx, i, rng| {
+        let fill: Vec<u8> = match i % 8 {
+            0 => TAG.iter().cycle().take(240).cloned().collect(),
+            1 => vec![0xFF; 240],
+            2 => vec![0; 240],
+            3 => (0..60).flat_map(|k| marker_word(k).to_vec()).collect(),
+            4 => (0..60).flat_map(|_| ts_word(rng.below(59) as u8, rng.bool(), rng.next()).to_vec()).collect(),
+            5 => (0..240).map(|k| if k % 4 == 3 { 0xFE } else { 0x3C }).collect(),
+            6 => [vec![0u8; 236], TAG.to_vec()].concat(),
+            _ => rng.bytes(240),
+        };
+        let block = [TAG.to_vec(), fill].concat();
+        let word = |rng: &mut Rng, k: u64| -> Vec<u8> {
+            match k % 5 {
+                0 => ts_word(rng.below(59) as u8, rng.bool(), rng.next()).to_vec(),
+                1 => marker_word(rng.next() as u32).to_vec(),
+                2 => TAG.to_vec(),
+                3 => vec![1, 2, 3, 0x80 | 59],
+                _ => Vec::new(),
+            }
+        };
+        for before in 0..5 {
+            for after in 0..5 {
+                for reps in 1..=3 {
+                    let mut st = word(rng, before);
+                    for _ in 0..reps {
+                        st.extend(&block);
+                    }
+                    st.extend(word(rng, after));
+                    let Some((got, consumed)) = lib_parse(ctx, &st) else { return };
+                    let (exp, ec) = ref_parse(&st);
+                    if got != exp || consumed != ec {
+                        ctx.violation("entries or consumed length differ from the reference parser", format!("scaler block with special content (kind {}), {} block(s), word kinds {} / {} around: consumed {} vs {}, entries {} vs {}", i % 8, reps, before, after, consumed, ec, got.len(), exp.len()), json!({"bytes": hex(&st)}));
+                        return;
+                    }
+                    ctx.count("streams with scaler blocks of special content");
+                }
+            }
+        }
+    });
     // ---- runs of entries at and beyond the 16-bit limits (any internal counter / repeat bound would show)
     ctx.cases("long-runs", ctx.tier.pick(6, 24), |ctx, i, rng| {
         let n = [65_534usize, 65_535, 65_536, 65_537, 70_000, 131_073][(i % 6) as usize];
